@@ -52,6 +52,8 @@ def wadd64 (a b : Nat) : Nat := (a + b) % 2 ^ 64
 def shl64 (a k : Nat) : Nat := (a <<< k) % 2 ^ 64
 /-- `a >> k` on u64 -/
 def shr64 (a k : Nat) : Nat := a >>> k
+/-- `a >> k` on u128 (`k < 128`; every shift amount in scalar64.rs is a literal ≤ 56) -/
+def shrU128 (a k : Nat) : Nat := a >>> k
 /-- `c as u64` for a u128 -/
 def asU64 (c : Nat) : Nat := c % 2 ^ 64
 /-- `const fn mul128(a: u64, b: u64) -> u128 { a as u128 * b as u128 }` -/
